@@ -32,8 +32,8 @@ type BB<WR> = <<WR as WordRead>::Word as DoubleType>::DoubleType;
 ///
 /// The peek word is equal to the bit buffer. The value returned
 /// by [`peek_bits`](crate::traits::BitRead::peek_bits) contains at least as
-/// many bits as the word size plus one (extended with zeros beyond end of
-/// stream).
+/// many bits as the word size (extended with zeros beyond end of stream), as
+/// a peek on an empty buffer refills it with a single word.
 ///
 /// This implementation is usually faster than
 /// [`BitReader`](crate::impls::BitReader).
@@ -94,7 +94,7 @@ where
     /// ```
     #[must_use]
     pub fn new(backend: WR) -> Self {
-        check_tables(WR::Word::BITS + 1);
+        check_tables(WR::Word::BITS);
         Self {
             backend,
             buffer: BB::<WR>::ZERO,
